@@ -44,14 +44,15 @@ func ResolveTCPAddr(n, a string) (*net.TCPAddr, error) {
 
 // Dir is one direction of a link.
 type Dir struct {
-	buf     []byte
-	Written int   // bytes accepted so far
-	Read    int   // bytes consumed so far
-	CutAt   int   // -1: never; otherwise the link breaks once Written reaches CutAt (bytes beyond are dropped)
-	Hold    bool  // delivered bytes stay invisible to the reader while set
-	Cap     int   // >0: socket buffer size: a write blocks while this many bytes are pending (a slow or stalled reader pushes back)
-	closed  bool  // writer side closed: reader gets EOF after draining
-	broken  bool
+	buf       []byte
+	Written   int  // bytes accepted so far
+	Read      int  // bytes consumed so far
+	CutAt     int  // -1: never; otherwise the link breaks once Written reaches CutAt (bytes beyond are dropped)
+	Hold      bool // delivered bytes stay invisible to the reader while set
+	HoldAfter int  // >0: the reader sees the first HoldAfter bytes of the stream only; the rest stays invisible until the field is reset to 0
+	Cap       int  // >0: socket buffer size: a write blocks while this many bytes are pending (a slow or stalled reader pushes back)
+	closed    bool // writer side closed: reader gets EOF after draining
+	broken    bool
 }
 
 // Link is one established connection; A is the dialing side, B the accepting side.
@@ -124,9 +125,14 @@ func (c *conn) Read(b []byte) (int, error) {
 	if len(b) == 0 {
 		return 0, nil
 	}
-	rt.Block(func() bool { return c.closed || (len(c.rd.buf) > 0 && !c.rd.Hold) || (c.rd.closed && !c.rd.Hold) })
+	rt.Block(func() bool {
+		return c.closed || (len(c.rd.buf) > 0 && !c.rd.Hold && (c.rd.HoldAfter <= 0 || c.rd.Read < c.rd.HoldAfter)) || (c.rd.closed && !c.rd.Hold && c.rd.HoldAfter <= 0)
+	})
 	if c.closed {
 		return 0, errors.New("use of closed network connection")
+	}
+	if c.rd.HoldAfter > 0 && len(b) > c.rd.HoldAfter-c.rd.Read {
+		b = b[:c.rd.HoldAfter-c.rd.Read]
 	}
 	if len(c.rd.buf) == 0 {
 		if c.rd.broken {
